@@ -44,7 +44,7 @@ class C11:
             "non-ASCII character, > 1 tier, or an explicit version request on a hybrid is present; distinct by "
             "(origin, version x request, character classes, #tiers, url-list form, route)")
     required = ("uris_parsed", "btih_compared", "btmh_compared", "tr_compared", "ws_compared", "printed_compared",
-                "origin_tool", "origin_edited", "origin_ref")
+                "origin_tool", "origin_edited", "origin_ref", "announce_not_first_in_list")
     assumptions = ("reference span decoder locates the exact info bytes", "urllib.parse.unquote_to_bytes decodes as clients do")
 
     @staticmethod
@@ -68,6 +68,8 @@ class C11:
                     tiers[k % nt].append(u)
                 tiers = [t for t in tiers if t]
                 ann = tiers[0][0]
+                if rng.random() < 0.4:
+                    ann = rng.choice([u for t in tiers for u in t])     # primary tracker listed, but not first
             else:
                 tiers = [urls]
                 ann = urls[0]
@@ -227,6 +229,8 @@ class C11:
         alltext = exp_dn + b"".join(exp_tr) + b"".join(exp_ws)
         classes = sorted({c for c in "&=%+# " if c.encode() in alltext} | ({"non-ascii"} if not alltext.isascii() else set()))
         ntiers = len(case["tiers"]) if case["tiers"] else 0
+        if case["tiers"] and case["announce"] and case["announce"] != case["tiers"][0][0]:
+            counters["announce_not_first_in_list"] = 1
         nontrivial = bool(classes) or ntiers > 1 or (ver == 3 and req != 0)
         return {"violations": viol, "counters": counters, "reach": reach.collect(), "nontrivial": nontrivial,
                 "sig": [case["origin"], ver, req, classes, ntiers, case["ws_form"], case["via"]],
